@@ -24,15 +24,10 @@ fn model_bit(op: &str, a: &Value, b: &Value) -> Tri {
     }
 }
 
-fn helper(op: &str, a: &Value, b: &Value) -> Result<bool, String> {
+/// None when the harness was built without the helper API (helpers.rs)
+fn helper(op: &str, a: &Value, b: &Value) -> Result<Option<bool>, String> {
     let (a2, b2) = (a.clone(), b.clone());
-    crate::imp::guarded(|| match op {
-        "<" => jsonlogic_rs::js_op::abstract_lt(&a2, &b2),
-        "<=" => jsonlogic_rs::js_op::abstract_lte(&a2, &b2),
-        ">" => jsonlogic_rs::js_op::abstract_gt(&a2, &b2),
-        _ => jsonlogic_rs::js_op::abstract_gte(&a2, &b2),
-    })
-    .map_err(|m| format!("js_op helper for {} panicked ({}) on {} , {}", op, m, a, b))
+    crate::imp::guarded(|| crate::helpers::rel(op, &a2, &b2)).map_err(|m| format!("js_op helper for {} panicked ({}) on {} , {}", op, m, a, b))
 }
 
 /// The four operators on (a, b): against `want[i]` where given, literal vs var, mirror laws, helpers.
@@ -57,8 +52,10 @@ fn rel_all_routes(a: &Value, b: &Value, want: [Option<bool>; 4], obs: &mut Obs) 
         }
         let h = helper(op, a, b)?;
         obs.evals += 1;
-        if h != got[i] {
-            return Err(format!("js_op helper for {} gives {} but the operator gives {} on {} , {}", op, h, got[i], a, b));
+        if let Some(h) = h {
+            if h != got[i] {
+                return Err(format!("js_op helper for {} gives {} but the operator gives {} on {} , {}", op, h, got[i], a, b));
+            }
         }
     }
     // a > b == b < a ; a >= b == b <= a
